@@ -403,6 +403,10 @@ def run(ctx, load):
     ctx.config = 'default'
     check_custom_dealloc(P, ctx, Ppos)
     check_header_writers(P, ctx, Ppos)
+    # what is released raw was allocated raw: the table of a copied Thread (released with del_raw by the destructor) — evaluated
+    from .rules_c13 import check_thread_assign
+    check_thread_assign(P, ctx, rule='C19.released-as-allocated', which='class')
+    ctx.floor('C19.released-as-allocated', 1)
     # an object registered with the collector leaves through the collector's removal on every path (shared with C06.del-routes): a
     # release that bypasses it leaves an entry behind, and the next sweep finalises the freed block again
     from .rules_c06 import check_del_routes
